@@ -60,6 +60,9 @@ class CellBytes(CrossHairValue):
     def __getitem__(self, i):
         if isinstance(i, slice):
             return CellBytes(self.cells[i], self.text)
+        if self.text:
+            # str semantics: indexing a str gives a 1-character str, never an int
+            return CellBytes([self.cells[i]], True)
         return self.cells[i]          # genuine IndexError on an empty name
 
     def __repr__(self):
